@@ -1,4 +1,9 @@
-(* The inductive invariant of the buffer pipeline PipeConc (control + data). *)
+(* The inductive invariant of the buffer pipeline PipeConc (control + data).
+   Spurious wake-ups are transitions of the system (PipeConc.spurious): the invariant claims nothing about
+   the predicate of an Awake thread.  A worker that is W_Awake is either on a READY / INV buffer (it was
+   notified, or the buffer was handed over while it was spuriously awake) or, woken spuriously, on an EMPTY /
+   UPDATING buffer exactly where a W_Asleep worker may be (w_fresh / w_upd); the I/O thread at I_Awake is
+   on a buffer of any idle state (pre_ok). *)
 From Wencry Require Import Bytes FileModel PipeConc PipeProps PipeLemmas.
 From Coq Require Import ZifyNat.
 Local Open Scope nat_scope.
@@ -32,8 +37,10 @@ Definition outs (j : nat) : list (result (list N)) := snd (seq_chunks T sigma0 0
 Definition R (i j : nat) : S * list (list N) := tr_blocks (nth i (G j) dS) (blk j).
 
 (* ---- per buffer ---- *)
-Definition w_fresh (w : wpc) : Prop := match w with W_New | W_Start | W_Asleep true => True | _ => False end.
-Definition w_upd (w : wpc) : Prop := match w with W_WaitReady | W_Asleep false => True | _ => False end.
+(* W_Awake on a buffer that is not READY / INV: the worker was woken spuriously (it will re-test its
+   predicate, find it false and go back to sleep) *)
+Definition w_fresh (w : wpc) : Prop := match w with W_New | W_Start | W_Asleep true | W_Awake true => True | _ => False end.
+Definition w_upd (w : wpc) : Prop := match w with W_WaitReady | W_Asleep false | W_Awake false => True | _ => False end.
 Definition w_alive (w : wpc) : Prop := match w with W_Asleep _ => False | _ => True end.
 
 (* buffer b holds chunk j (of stream i), processed up to the cursor, x = current stream state *)
@@ -97,8 +104,7 @@ Definition OwnInv (n i : nat) (p : ipc) (b : buf) (w : wpc) (x : S) : Prop :=
 Definition pre_ok (o : option ipc) (st : bst) : Prop :=
   match o with
   | Some I_Asleep => st = READY
-  | Some I_Awake => st = UPDATING \/ st = EMPTY
-  | _ => True
+  | _ => True       (* I_Awake: notified (UPDATING) or woken spuriously (still READY): nothing is claimed *)
   end.
 
 (* o = Some (io pc) iff the visit in progress is on this buffer *)
@@ -291,10 +297,11 @@ Lemma Fresh_wlocal i b w x b' w' x' wk :
   Fresh i b w x -> wlocal b w x = Some (b', w', x', wk) -> Fresh i b' w' x' /\ st_move b b' wk.
 Proof.
   intros (Hs & Hn & Ht & Hf & Hw & Hx) H. unfold Fresh, st_move.
-  destruct w as [| | | | |[]|f| |]; cbn in Hw; try contradiction; cbn [wlocal] in H.
+  destruct w as [| | | | |[]|[]| |]; cbn in Hw; try contradiction; cbn [wlocal] in H.
   - injection H as <- <- <- <-. cbn. tauto.
   - unfold wait_pc in H. rewrite Hs in H. cbn in H. injection H as <- <- <- <-. cbn. tauto.
   - discriminate.
+  - unfold wait_pc in H. rewrite Hs in H. cbn in H. injection H as <- <- <- <-. cbn. tauto.
 Qed.
 
 Lemma Dead_wlocal i b w x b' w' x' wk :
@@ -317,11 +324,15 @@ Proof.
   unfold hold_ctl in Hc. destruct (b_st b) eqn:Est; try contradiction.
   - (* UPDATING *)
     destruct Hc as [Hw Hn].
-    destruct w as [| | | | |[]|f| |]; cbn in Hw; try contradiction; cbn [wlocal] in H.
+    destruct w as [| | | | |[]|[]| |]; cbn in Hw; try contradiction; cbn [wlocal] in H.
     + unfold wait_pc in H. rewrite Est in H. cbn in H. injection H as <- <- <- <-.
       split; [split; [exact Hh|]|left; split; reflexivity].
       unfold hold_ctl. rewrite Est. cbn. tauto.
     + discriminate.
+    + (* spuriously awake: back to sleep *)
+      unfold wait_pc in H. rewrite Est in H. cbn in H. injection H as <- <- <- <-.
+      split; [split; [exact Hh|]|left; split; reflexivity].
+      unfold hold_ctl. rewrite Est. cbn. tauto.
   - (* READY *)
     destruct w as [| | | | |f|f| |]; try contradiction; cbn [wlocal] in H;
       unfold wait_pc in H; rewrite ?Est in H; cbn [ready_or_inv] in H.
@@ -369,7 +380,7 @@ Proof.
   intros (Hx & Hc & Hp) H.
   assert (E : b' = b /\ x' = x /\ wk = false /\ own_ctl n b w').
   { unfold own_ctl in *. destruct n as [|n']; destruct Hc as [Hs Hw];
-      destruct w as [| | | | |[]|f| |]; cbn in Hw; try contradiction; cbn [wlocal] in H;
+      destruct w as [| | | | |[]|[]| |]; cbn in Hw; try contradiction; cbn [wlocal] in H;
       unfold wait_pc in H; rewrite ?Hs in H; cbn in H; try discriminate;
       injection H as <- <- <- <-; cbn; tauto. }
   destruct E as (-> & -> & -> & Hc'). repeat split; try assumption.
@@ -611,7 +622,7 @@ Proof.
       unfold R. rewrite <- Hx. repeat split; try reflexivity; try assumption; lia.
     + unfold hold_ctl. cbn [with_st b_st b_now].
       unfold own_ctl in Hc. destruct n; destruct Hc as [_ Hw];
-        destruct w as [| | | | |[]|f| |]; cbn in Hw; try contradiction; cbn; exact Hn.
+        destruct w as [| | | | |[]|[]| |]; cbn in Hw; try contradiction; cbn; exact Hn.
   - apply Nat.ltb_ge in E. unfold Dead. cbn [with_st b_st b_now b_total].
     rewrite <- (G_ge _ E), <- Hx. repeat split; try assumption.
     destruct w; cbn; exact I.
@@ -984,14 +995,69 @@ Proof.
       * unfold iot. destruct ((i =? 0) && negb (post_fin I_WaitUpdate)); exact I.
 Qed.
 
-Lemma inv_step s tid s' evs :
-  Inv s -> step S tr tr_event c ispadding s tid = Some (s', evs) -> Inv s'.
+(* ================= spurious wake-ups ================= *)
+(* a sleeping worker that wakes up without a notification: nothing the invariant says about its buffer
+   depends on the difference (it will find its predicate false and go back to sleep) *)
+Lemma BufInv_spur n o i b f x : BufInv n o i b (W_Asleep f) x -> BufInv n o i b (W_Awake f) x.
 Proof.
-  intros (q & r & Hinv) H. unfold step in H. destruct tid as [|i].
+  intros Hb. destruct (is_own o) eqn:Eo.
+  - apply BufInv_own in Hb; [|exact Eo]. destruct Hb as (p & -> & Hx & Hc & Hp).
+    apply BufInv_own; [exact Eo|]. exists p. split; [reflexivity|]. split; [exact Hx|]. split; [|exact Hp].
+    unfold own_ctl in *. destruct n; destruct Hc as [Hs Hw]; (split; [exact Hs|]); destruct f; exact Hw.
+  - apply BufInv_idle in Hb; [|exact Eo]. destruct Hb as [Hb Hpre].
+    apply BufInv_idle; [exact Eo|]. split; [|exact Hpre].
+    unfold IdleInv in *. destruct n as [|n'].
+    + destruct Hb as (Hs & Hn & Ht & Hf & Hw & Hx). unfold Fresh. do 4 (split; [assumption|]).
+      split; [destruct f; exact Hw|exact Hx].
+    + destruct (n' * T + i <? m).
+      * destruct Hb as [Hh Hc]. split; [exact Hh|]. unfold hold_ctl in *.
+        destruct (b_st b); try contradiction. destruct Hc as [Hw Hn]. split; [|exact Hn]. destruct f; exact Hw.
+      * destruct Hb as (_ & _ & Hw & _). contradiction.
+Qed.
+
+Lemma inv_spurious q r s j s' evs :
+  InvQR q r s -> spurious S s j = Some (s', evs) -> InvQR q r s'.
+Proof.
+  intros (Lb & Lw & Lx & Hr & Ht & Hio & Hbuf) H. unfold spurious in H. destruct j as [|i].
+  - (* the I/O thread *)
+    destruct (io S s) eqn:Eio; try discriminate. injection H as <- _.
+    unfold InvQR. cbn [set_io bufs wpcs wsts turn io]. do 5 (split; [assumption|]). split.
+    + unfold IoInv in *. cbn [set_io io input over live output crashed]. rewrite Eio in Hio. exact Hio.
+    + intros k Hk. specialize (Hbuf k Hk). rewrite getb_set_io, getw_set_io.
+      unfold nvis, iot in *. cbn [post_fin negb] in *. rewrite Bool.andb_true_r in *.
+      destruct (k =? r); [|exact Hbuf].
+      apply BufInv_idle in Hbuf; [|reflexivity]. apply BufInv_idle; [reflexivity|].
+      destruct Hbuf as [Hb _]. split; [exact Hb|exact I].
+  - (* worker i *)
+    destruct (i <? nT S s) eqn:Ei; [|discriminate]. apply Nat.ltb_lt in Ei. unfold nT in Ei.
+    destruct (getw s i) eqn:Ew; try discriminate. injection H as <- _.
+    unfold InvQR. cbn [set_wpc bufs wpcs wsts turn io]. rewrite set_nth_length.
+    do 5 (split; [assumption|]). split.
+    + unfold IoInv in *. cbn [set_wpc io input over live output crashed]. exact Hio.
+    + intros k Hk. specialize (Hbuf k Hk). rewrite getb_set_wpc.
+      change (nth k (wsts S s) dS) with (nth k (wsts S (set_wpc S s i (W_Awake from_start))) dS).
+      cbn [set_wpc wsts].
+      destruct (Nat.eq_dec i k) as [<-|Hne].
+      * rewrite getw_set_wpc_eq by lia. rewrite Ew in Hbuf. apply BufInv_spur. exact Hbuf.
+      * rewrite getw_set_wpc_neq by exact Hne. exact Hbuf.
+Qed.
+
+Lemma inv_step_real s tid s' evs :
+  Inv s -> step_real S tr tr_event c ispadding s tid = Some (s', evs) -> Inv s'.
+Proof.
+  intros (q & r & Hinv) H. unfold step_real in H. destruct tid as [|i].
   - apply (inv_io q r s s' evs Hinv H).
   - destruct (i <? nT S s) eqn:E; [|discriminate]. apply Nat.ltb_lt in E.
     exists q, r. apply (inv_worker q r s i s' evs Hinv); [|exact H].
     destruct Hinv as (Lb & _). unfold nT in E. lia.
+Qed.
+
+Lemma inv_step s tid s' evs :
+  Inv s -> step S tr tr_event c ispadding s tid = Some (s', evs) -> Inv s'.
+Proof.
+  intros Hinv H. unfold step in H. destruct (tid <=? nT S s).
+  - apply (inv_step_real s tid s' evs Hinv H).
+  - destruct Hinv as (q & r & Hinv). exists q, r. apply (inv_spurious q r s _ s' evs Hinv H).
 Qed.
 
 Lemma inv_run : forall sched s s', Inv s -> run S tr tr_event c ispadding s sched = Some s' -> Inv s'.
